@@ -60,7 +60,7 @@ Theorem C01_nonvacuous : oracle_ok ex_match ex_search ex_rx ex_tables /\ tables_
 Proof. exact (conj ex_oracle_ok ex_tables_ok). Qed.
 Print Assumptions C01_nonvacuous.
 
-(** The main loop as it was before the repair (fix: d3a0a22) drops everything after the first
+(** The main loop as it was before the repair (fix: f37a434) drops everything after the first
     unlexable byte, for oracles and tables satisfying every contract. *)
 Theorem C01_legacy_refuted :
   exists om os orx tb ku s ts,
